@@ -332,10 +332,12 @@ class TreeRun:
         if self.kind == "dir":
             if spec.match_file(self.input_abs + "/"):
                 tbl.append([[], True])
-            for rel, n in walk_tree(self.case["tree"]):
+            for rel, n in walk_tree(self.model_tree()):
                 p = os.path.join(self.input_abs, *rel)
                 if n["kind"] == "d":
-                    if spec.match_file(p + "/"):
+                    # an output directory inside the input tree is pruned from the walk like an
+                    # excluded directory (repair of F29)
+                    if spec.match_file(p + "/") or (self.out_abs is not None and p == self.out_abs):
                         tbl.append([list(rel), True])
                 else:
                     if spec.match_file(p):
